@@ -418,10 +418,19 @@ package gtfs
 //@   loop 3 invariant forall a int, b int :: 0 <= a && a < b && b < len(rows) ==> rows[a].ShapePtSequence <= rows[b].ShapePtSequence
 //@   loop 3 invariant forall k int :: 0 <= k && k < len(shapes) ==> shapes[k] == athead(2, shapes[k])
 
+// a frequencies.txt row is accepted iff its four required cells are present, the trip exists, headway_secs is a 32-bit
+// number and both times parse (C09); it is appended to that trip's frequencies (C01, exact_times default C10)
+//@ pure func frAccepted(f *csv.File, m ?) bool = col(f, "trip_id") != "" && col(f, "start_time") != "" && col(f, "end_time") != "" && col(f, "headway_secs") != "" && m[col(f, "trip_id")] != nil && int32OK(col(f, "headway_secs")) && gtfsTimeOK(col(f, "start_time")) && gtfsTimeOK(col(f, "end_time"))
+//@ pure func frFaithful(e Frequency, f *csv.File) bool = e.StartTime == gtfsTimeVal(col(f, "start_time")) && e.EndTime == gtfsTimeVal(col(f, "end_time")) && e.Headway == int32Val(col(f, "headway_secs")) * 1000000000 && e.ExactTimes == parseExactTimes(col(f, "exact_times"))
+//@ pure func frAppended(T *ScheduledTrip, f *csv.File) bool = len(T.Frequencies) == athead(1, len(T.Frequencies)) + 1 && frFaithful(T.Frequencies[len(T.Frequencies) - 1], f)
+
 //@ func parseFrequencies
 //@   props C01 C05 C08 C09 C10
 //@   requires csvOK(csv)
-//@   loop 1 invariant csvOK(csv)
+//@   loop 1 invariant csvOK(csv) && csv.csvReader == old(csv.csvReader)
+//@   loop 1 step [blank-required-cell-iff-a-missing-key-is-recorded] (col(csv, "trip_id") == "" || col(csv, "start_time") == "" || col(csv, "end_time") == "" || col(csv, "headway_secs") == "") == (len(csv.currentRow.missingKeys) > 0)
+//@   loop 1 step [accepted-row-is-appended-to-its-trip] frAccepted(csv, tripIDToScheduledTrip) ==> frAppended(tripIDToScheduledTrip[col(csv, "trip_id")], csv)
+//@   loop 1 step [rejected-row-is-inert] !frAccepted(csv, tripIDToScheduledTrip) ==> (forall id string :: has(tripIDToScheduledTrip, id) && tripIDToScheduledTrip[id] != nil ==> len(tripIDToScheduledTrip[id].Frequencies) == athead(1, len(tripIDToScheduledTrip[id].Frequencies)))
 //@   loop 1 decreases remaining(csv.csvReader)
 
 // ----------------------------------------------------------------------------------------------------------------
